@@ -420,6 +420,7 @@ def table_ctor(rep, prog, rule):
                     continue
                 sym = sym or Sym(f)
                 rep.touch(f)
+                group_args = []
                 for k, op in enumerate(st[2][4]):
                     n += 1
                     e = sym.operand(op, (b, j))
@@ -435,6 +436,10 @@ def table_ctor(rep, prog, rule):
                             break
                     full = str(inner[5] if inner[0] == "callat" else inner[4]) if inner[0] in ("call", "callat") else ""
                     if inner[0] in ("call", "callat") and full.endswith("MappingTable::<Out, SIZE>::new"):
+                        a0 = (inner[3] if inner[0] == "callat" else inner[2])[0]
+                        while isinstance(a0, tuple) and a0 and a0[0] in ("ref", "deref", "cast"):
+                            a0 = a0[2] if a0[0] == "cast" else a0[1]
+                        group_args.append((name, a0))
                         rep.ok(rule, key, st[3], "%s = MappingTable::new(%s)" % (
                             name, fmt((inner[3] if inner[0] == "callat" else inner[2])[0])[:40]))
                         continue
@@ -459,6 +464,23 @@ def table_ctor(rep, prog, rule):
                                 "destination depth" % (f.name, name, s[:80]))
                     else:
                         rep.unk(rule, key, st[3], "%s is built by %s" % (name, s[:100]))
+                # the four tables of one group serve one direction: they are built from ONE function
+                if len(group_args) >= 2:
+                    from collections import Counter
+                    cnt = Counter(fmt(a) for _, a in group_args)
+                    major, _ = cnt.most_common(1)[0]
+                    odd = [(nm, a) for nm, a in group_args if fmt(a) != major]
+                    gkey = "%s|group@%s" % (f.name, "+".join(sorted({fmt(a)[:20] for _, a in group_args})))
+                    if odd and len(cnt) == 2 and len(odd) < len(group_args) - len(odd):
+                        for nm, a in odd:
+                            rep.bad(rule, "%s|%s|other-function" % (f.name, nm), st[3],
+                                    "%s: table %s of the group is built from %s while the other tables "
+                                    "of the same group are built from %s: that slot maps with the "
+                                    "transfer function of the other direction" % (f.name, nm, fmt(a)[:40], major[:40]))
+                    elif odd:
+                        rep.unk(rule, gkey, st[3], "tables of one group built from %d different functions" % len(cnt))
+                    else:
+                        rep.ok(rule, gkey, st[3], "all %d tables from %s" % (len(group_args), major[:40]))
     rep.floor(rule, "tables in MappingTablesGroup aggregates", n, 8)
 
 
